@@ -22,15 +22,15 @@ const c05Prefix = "/r/w/"
 type wop int
 
 const (
-	wCreateX wop = iota // create /r/w/x
-	wUpdateX            // update /r/w/x at its current revision (harness tracks it per thread)
-	wDeleteX            // delete /r/w/x (unguarded)
-	wCreateY            // create /r/w/y
-	wCreateOut          // create /r/o/z (outside the watched prefix)
-	wDupP               // create /r/w/p again (fails when /r/w/p exists)
-	wUpdateP            // update /r/w/p (pre-window key) unguarded-by-thread: uses revision 0 => create semantics, fails when live
-	wDeleteP            // delete /r/w/p (unguarded)
-	wUpdStaleP          // update /r/w/p naming a revision it never had: a failed condition on the PUT path
+	wCreateX   wop = iota // create /r/w/x
+	wUpdateX              // update /r/w/x at its current revision (harness tracks it per thread)
+	wDeleteX              // delete /r/w/x (unguarded)
+	wCreateY              // create /r/w/y
+	wCreateOut            // create /r/o/z (outside the watched prefix)
+	wDupP                 // create /r/w/p again (fails when /r/w/p exists)
+	wUpdateP              // update /r/w/p (pre-window key) unguarded-by-thread: uses revision 0 => create semantics, fails when live
+	wDeleteP              // delete /r/w/p (unguarded)
+	wUpdStaleP            // update /r/w/p naming a revision it never had: a failed condition on the PUT path
 )
 
 var wopNames = [...]string{"createX", "updateX", "deleteX", "createY", "createOut", "dupP", "upd0P", "deleteP", "updStaleP"}
@@ -42,6 +42,7 @@ type c05Cfg struct {
 	consumer string // eager lazy stalled
 	writers  [][]wop
 	watchBuf int
+	gaps     bool // failed writes between the pre-window events: cached revisions are not consecutive
 }
 
 func (c c05Cfg) name() string {
@@ -53,15 +54,19 @@ func (c c05Cfg) name() string {
 		}
 		ws = append(ws, strings.Join(s, ","))
 	}
-	return fmt.Sprintf("C05/cache=%d/pre=%d/start=%s/%s/buf=%d/%s", c.cache, c.pre, c.start, c.consumer, c.watchBuf, strings.Join(ws, "|"))
+	g := ""
+	if c.gaps {
+		g = "/gaps"
+	}
+	return fmt.Sprintf("C05/cache=%d/pre=%d%s/start=%s/%s/buf=%d/%s", c.cache, c.pre, g, c.start, c.consumer, c.watchBuf, strings.Join(ws, "|"))
 }
 
 type evRec struct {
-	typ    proto.Event_EventType
-	rev    uint64
-	key    string
-	val    string
-	kvRev  uint64
+	typ   proto.Event_EventType
+	rev   uint64
+	key   string
+	val   string
+	kvRev uint64
 }
 
 func (e evRec) String() string {
@@ -129,9 +134,23 @@ func c05Scenario(c c05Cfg) *mc.Scenario {
 			}
 			prev = op.Hdr
 			allOps = append(allOps, op)
+			if c.gaps {
+				// a failed write consumes a revision without producing an event
+				f := &clientOp{Key: "/r/w/p", Kind: rCreate, Val: "dup"}
+				w.do(f)
+				vrt.Quiesce()
+				if f.OK {
+					panic("duplicate create succeeded")
+				}
+			}
 		}
 		committed := w.b.GetCurrentRevision()
 		oldest := committed - uint64(minInt(c.pre, c.cache)) + 1 // oldest cached event revision (if any)
+		if c.gaps && c.pre > 0 {
+			// events sit at base+1, base+3, ...; the cache holds the last min(pre, cache) of them
+			n := minInt(c.pre, c.cache)
+			oldest = base + 1 + 2*uint64(c.pre-n)
+		}
 		var S uint64
 		switch c.start {
 		case "zero":
@@ -142,6 +161,10 @@ func c05Scenario(c c05Cfg) *mc.Scenario {
 			S = oldest
 		case "inside":
 			S = (oldest + committed + 1) / 2
+		case "inside-gap":
+			S = oldest + 1 // with gaps: a revision between two cached events
+		case "inside-2nd":
+			S = oldest + 2 // with gaps: the second cached event
 		case "newest":
 			S = committed
 		case "newest+1":
@@ -149,7 +172,7 @@ func c05Scenario(c c05Cfg) *mc.Scenario {
 		case "far":
 			S = committed + 50
 		}
-		if c.pre == 0 && (c.start == "below" || c.start == "oldest" || c.start == "inside" || c.start == "newest") {
+		if c.pre == 0 && (c.start == "below" || c.start == "oldest" || strings.HasPrefix(c.start, "inside") || c.start == "newest") {
 			S = committed // nothing cached: a start revision at the committed revision
 		}
 		w.ops = nil
@@ -361,35 +384,41 @@ func c05Configs(tier string) []c05Cfg {
 				if pre == 0 && (st == "below" || st == "inside" || st == "oldest") {
 					continue
 				}
-				out = append(out, c05Cfg{cache, pre, st, "eager", w1, 2})
+				out = append(out, c05Cfg{cache, pre, st, "eager", w1, 2, false})
 			}
+		}
+	}
+	// cached revisions with gaps (failed writes in between)
+	for _, cache := range []int{3, 8} {
+		for _, st := range []string{"oldest", "inside-gap", "inside-2nd", "newest"} {
+			out = append(out, c05Cfg{cache, 4, st, "eager", w1b, 2, true})
 		}
 	}
 	// consumer speeds with a tiny subscriber buffer (overflow)
 	for _, cons := range []string{"eager", "lazy", "stalled"} {
 		for _, st := range []string{"zero", "newest+1"} {
-			out = append(out, c05Cfg{8, 1, st, cons, w3, 1})
-			out = append(out, c05Cfg{8, 1, st, cons, w1b, 1})
-			out = append(out, c05Cfg{8, 1, st, cons, wfail, 1})
+			out = append(out, c05Cfg{8, 1, st, cons, w3, 1, false})
+			out = append(out, c05Cfg{8, 1, st, cons, w1b, 1, false})
+			out = append(out, c05Cfg{8, 1, st, cons, wfail, 1, false})
 		}
 	}
-	out = append(out, c05Cfg{3, 2, "oldest", "stalled", w3, 1}, c05Cfg{3, 2, "inside", "lazy", w3, 1})
+	out = append(out, c05Cfg{3, 2, "oldest", "stalled", w3, 1, false}, c05Cfg{3, 2, "inside", "lazy", w3, 1, false})
 	// two writers
 	for _, st := range []string{"zero", "newest", "newest+1"} {
-		out = append(out, c05Cfg{3, 2, st, "eager", w2, 2})
+		out = append(out, c05Cfg{3, 2, st, "eager", w2, 2, false})
 	}
 	if tier == "thorough" {
 		for _, cache := range []int{2, 8} {
 			for _, pre := range []int{1, 3, 4} {
 				for _, st := range starts {
 					for _, cons := range []string{"eager", "stalled"} {
-						out = append(out, c05Cfg{cache, pre, st, cons, w3, 1})
+						out = append(out, c05Cfg{cache, pre, st, cons, w3, 1, false})
 					}
 				}
 			}
 		}
 		for _, st := range starts {
-			out = append(out, c05Cfg{2, 3, st, "lazy", w2, 1})
+			out = append(out, c05Cfg{2, 3, st, "lazy", w2, 1, false})
 		}
 	}
 	return out
@@ -397,9 +426,9 @@ func c05Configs(tier string) []c05Cfg {
 
 func init() {
 	mc.Register(&mc.Property{
-		ID:    "C05",
-		Level: "model_checking",
-		Rule: "every schedule (preemption-bounded DFS with happens-before state cache) of one watcher (register, then consume eagerly / lazily / not until the end), 1-2 writers (successful and failing writes on keys inside and outside the watched prefix) and the real sequencer, fan-out hub, per-watch filter goroutine and context watcher; x event-cache sizes {1,2,3,8} incl. wrap-around x 0-4 events before the window x 7 start revisions relative to the cached window; capacities shrunk (batch 2, subscriber buffer 1-2, result channel 2) so that a stalled consumer overflows after three batches; oracle: the received sequence is a gap-free, duplicate-free prefix of the ground truth (for start 0: a contiguous run starting no later than the first write begun after registration), complete if the stream is still open at quiescence",
+		ID:     "C05",
+		Level:  "model_checking",
+		Rule:   "every schedule (preemption-bounded DFS with happens-before state cache) of one watcher (register, then consume eagerly / lazily / not until the end), 1-2 writers (successful and failing writes on keys inside and outside the watched prefix) and the real sequencer, fan-out hub, per-watch filter goroutine and context watcher; x event-cache sizes {1,2,3,8} incl. wrap-around x 0-4 events before the window x 7 start revisions relative to the cached window; capacities shrunk (batch 2, subscriber buffer 1-2, result channel 2) so that a stalled consumer overflows after three batches; oracle: the received sequence is a gap-free, duplicate-free prefix of the ground truth (for start 0: a contiguous run starting no later than the first write begun after registration), complete if the stream is still open at quiescence",
 		Assume: []string{"capacities shrunk: eventBatchSize=2, watchBuffer=1|2, resultChanLength=2, watchersChanCapacity=128", "at most one subscriber per hub (map iteration order not observable)", "in-memory engine"},
 		Scenarios: func(tier string) []*mc.Scenario {
 			var out []*mc.Scenario
